@@ -15,7 +15,7 @@ from .. import arrays as A
 from .. import gen_geom as gg
 from .. import oracle_geom as og
 from .. import oracle_hilbert as oh
-from ..ctx import exc_in_repo, short_exc, stable_hash
+from ..ctx import exc_in_repo, scribble, short_exc, stable_hash
 
 RULE = ("cases = (kind, subtype, element, total_bounds, total_bounds type, p): elements on the "
         "quarter grid inside, on the upper edge of, and outside an extent whose sides are powers "
@@ -201,6 +201,11 @@ def check_case(ctx, case):
                   max(b[2] for b in own if b[2] == b[2]), max(b[3] for b in own if b[3] == b[3])]
     else:
         eff_tb = list(tb)
+    # a caller may write into the arrays it was handed before: the answer judged below comes afterwards
+    for g_ in (lambda: arr.bounds, lambda: arr.total_bounds, lambda: arr.hilbert_distance(list(eff_tb), p=p)):
+        ok, v_, tb_ = ctx.guarded(g_)
+        if ok:
+            ctx.count("caller_written_results", scribble(v_))
     arg = make_tb(tb, tbt)
     snap = tb_snapshot(arg)
     ok, got, tb_ = ctx.guarded(lambda: arr.hilbert_distance(arg, p=p) if arg is not None
